@@ -32,6 +32,19 @@ def gen(ch, prof):
                         "uid": uid})
         files.append({"file": g.pick(["submit_jobs_events.log", f"run_jobs_batch_{i + 1}_0_events.log",
                                       f"extra{i}events.log"]) if i else "submit_jobs_events.log", "events": evs})
+    # resource-stat events (consolidated into Parquet, one row per event / per process)
+    res = []
+    for i in range(g.rint(0, 4)):
+        uid += 1
+        if g.flip(0.5):
+            procs = [{"name": f"job{uid}_{k}", "rss": 1000 * uid + k, "cpu_percent": float(g.rint(0, 100))}
+                     for k in range(g.rint(1, 3))]
+            res.append({"name": "process_stats", "ts": 1700000100.0 + i, "source": f"resource_monitor_batch_{i}_0",
+                        "data": {"processes": procs}, "uid": uid, "file": g.rint(0, 5)})
+        else:
+            res.append({"name": g.pick(["cpu_stats", "mem_stats"]), "ts": 1700000100.0 + i,
+                        "source": f"resource_monitor_batch_{i}_0",
+                        "data": {"cpu_percent": float(g.rint(0, 100)), "user": float(uid)}, "uid": uid, "file": g.rint(0, 5)})
     more = []
     for i in range(g.rint(0, 3)):
         uid += 1
@@ -41,7 +54,7 @@ def gen(ch, prof):
     for i in range(g.rint(1, 3)):
         stats.append({"pattern": g.pick(["increasing", "decreasing", "constant", "zero", "random"]), "n": g.rint(1, 8),
                       "cpu": g.flip(0.8), "memory": g.flip(0.8)})
-    return {"kind": "comp_events", "files": files, "more": more, "stats": stats, "env": {}, "jobs": [], "groups": [],
+    return {"kind": "comp_events", "files": files, "more": more, "stats": stats, "res": res, "env": {}, "jobs": [], "groups": [],
             "stat_patterns": ["increasing", "decreasing", "constant", "zero", "random"]}
 
 
@@ -90,6 +103,33 @@ def runner(scenario, prof, seed, trace=None, then_generate=False, props=()):
             for ln in lines:
                 fh.write(ln + "\n")
 
+    res_truth = {}
+    for e in scenario.get("res", []):
+        e2 = dict(e, cls="StructuredLogEvent")
+        line, d = ev_line(e2)
+        names = sorted(seen_files) or ["submit_jobs_events.log"]
+        fn = names[e["file"] % len(names)]
+        with open(os.path.join(out, fn), "a") as fh:
+            fh.write(line + "\n")
+        if e["name"] == "process_stats":
+            for pr in e["data"]["processes"]:
+                res_truth.setdefault(e["name"], []).append(dict(pr, timestamp=d["timestamp"], source=e["source"]))
+        else:
+            res_truth.setdefault(e["name"], []).append(dict(e["data"], timestamp=d["timestamp"], source=e["source"]))
+
+    def check_res(tag, summ):
+        for name, rows in res_truth.items():
+            df = summ.get_dataframe(name)
+            got = df.reset_index().to_dict("records") if len(df) else []
+            g_ = sorted(json.dumps(r, sort_keys=True, default=str) for r in got)
+            wv = sorted(json.dumps(r, sort_keys=True, default=str) for r in rows)
+            if g_ != wv:
+                lost = [x for x in wv if x not in g_]
+                bad("resource_events_altered", "consolidated resource-stat events differ from the events written",
+                    f"{tag} {name}: written {len(wv)} rows, consolidated {len(g_)}; lost={lost[:2]}")
+        if res_truth:
+            w.probe("resource_events_checked")
+
     def norm(d):
         return json.dumps({k: d.get(k) for k in ("category", "data", "event_class", "message", "name", "source", "timestamp")},
                           sort_keys=True)
@@ -113,7 +153,9 @@ def runner(scenario, prof, seed, trace=None, then_generate=False, props=()):
         n_ev = sum(len(v) for v in truth.values())
         if n_ev:
             w.probe("events_checked")
-        first = check("consolidate", EventsSummary(out), truth)
+        summ0 = EventsSummary(out)
+        first = check("consolidate", summ0, truth)
+        check_res("consolidate", summ0)
         again = check("reload", EventsSummary(out), truth)
         if first != again:
             bad("events_reload_differs", "loading the consolidated events again gives a different list", "")
